@@ -10,14 +10,16 @@ Fixpoint bxor (a b : list N) : list N :=
 
 Definition col_of (k r esi : nat) : nat := if esi <? k then esi + r else esi - k.
 
-Record obs := { o_complete : bool; o_src : list bool; o_rep : list bool; o_vals : list (option (list N)) }.
+Record obs := { o_complete : bool; o_src : list bool; o_rep : list bool; o_vals : list (option (list N));
+                o_state : st (list N) (* the whole decoder state: the check compares a digest of it with the C's after every call *) }.
 
 Definition observe (k r : nat) (s : st (list N)) : obs :=
   let '(c, _) := is_complete s in
   {| o_complete := c;
      o_src := map (fun i => known s (i + r)) (seq 0 k);
      o_rep := map (fun i => known s i) (seq 0 r);
-     o_vals := map (fun i => nth (i + r) (tab s) None) (seq 0 k) |}.
+     o_vals := map (fun i => nth (i + r) (tab s) None) (seq 0 k);
+     o_state := s |}.
 
 Fixpoint it_steps (fuel k r L : nat) (s : st (list N)) (vals : list (list N)) (esis : list nat) : list (option obs) :=
   match esis with
